@@ -1,2 +1,155 @@
-From Coq Require Import QArith.
-From CssV Require Import Base Numbers Colors.
+(* C17 -- numeric and colour values keep their meaning.
+   Models: theories/Numbers.v, theories/Colors.v over the regenerated Gen/NumConsts.v, Gen/Colors.v.
+   Number theorems are about normalised token values; a lexeme is (sign, integer digits, fraction digits, unit) and
+   [wf] says: digits are digits, there is an integer part or a fraction, the unit does not start with a digit or '.'.
+   float() is any function with [binary64_like] (error bound of binary64 round-to-nearest, sign preserving);
+   the executable [dbl_exec] is compared bit-for-bit with CPython by harness/props/c17.py.                     *)
+From Coq Require Import QArith Qabs.
+From CssV Require Import Base Regex Numbers NumbersFacts Colors ColorsFacts Gen.NumConsts Gen.Colors.
+Local Open Scope Q_scope.
+
+(* ---------------------------------------------------------------- numbers *)
+(* a written number parses to exactly its lexeme: sign, digits and unit are recovered, the stored value is the
+   exact integer, or float() of the exact decimal *)
+Theorem number_parse_exact : forall dbl lx,
+  binary64_like dbl -> wf lx -> Qabs (lex_Q lx) <= maxq ->
+  parse_num dbl (render lx) = Some (lx, to_value dbl lx) /\
+  (lfrac lx = None -> to_value dbl lx = PyInt (lex_num lx) /\ pyq (to_value dbl lx) == lex_Q lx) /\
+  (lfrac lx <> None -> to_value dbl lx = PyFloat (dbl (lex_Q lx))) /\
+  Qabs (pyq (to_value dbl lx) - lex_Q lx) <= Qabs (lex_Q lx) * eps53 + tiny.
+Proof.
+  intros dbl lx (H1 & H2 & H3 & H4) Hw Hr.
+  split; [exact (parse_render dbl lx Hw)|].
+  destruct (to_value_spec dbl H2 lx Hw Hr) as (_ & A & B & _).
+  split; [exact A|]. split; [exact B|]. exact (stored_err dbl H1 H2 lx Hw Hr).
+Qed.
+Print Assumptions number_parse_exact.
+
+(* parse -> cssText -> parse, for every lexeme and both omitLeadingZero settings: the value comes back within half a
+   unit of the 6th decimal (plus the two binary64 roundings), the unit is the same or a zero length dropped it *)
+Theorem number_roundtrip : forall dbl lx olz,
+  binary64_like dbl -> wf lx -> Qabs (lex_Q lx) <= roundtrip_range ->
+  exists lx' v',
+    roundtrip dbl olz lx = Some (lx', v') /\
+    Qabs (pyq v' - lex_Q lx) <= (1 # 2000000) + Qabs (lex_Q lx) * (1 # 2251799813685248) + (1 # 100000000000000000000) /\
+    (lunit lx' = lunit lx \/
+     (pyq (to_value dbl lx) == 0 /\ mem_s (lunit lx) zero_units = true /\ lunit lx' = [])).
+Proof.
+  intros dbl lx olz (H1 & H2 & H3 & H4). exact (number_roundtrip_thm dbl H1 H2 lx olz).
+Qed.
+Print Assumptions number_roundtrip.
+
+(* at most 6 decimals and below 10^9: the text that is written denotes exactly the decimal that was read, and the
+   value stored after re-parsing equals the value stored before: no drift at all *)
+Theorem six_digits_exact : forall dbl lx olz,
+  binary64_like dbl -> wf lx -> (length (frac_digits lx) <= 6)%nat -> Qabs (lex_Q lx) <= inject_Z (10 ^ 9) ->
+  exists lx' v',
+    roundtrip dbl olz lx = Some (lx', v') /\
+    lex_Q lx' == lex_Q lx /\
+    pyq v' == pyq (to_value dbl lx) /\
+    (lunit lx' = lunit lx \/
+     (pyq (to_value dbl lx) == 0 /\ mem_s (lunit lx) zero_units = true /\ lunit lx' = [])).
+Proof.
+  intros dbl lx olz (H1 & H2 & H3 & H4). exact (six_digits_exact_thm dbl H1 H2 H3 H4 lx olz).
+Qed.
+Print Assumptions six_digits_exact.
+
+(* the units a zero value may lose are CSS 2.1 lengths (4.3.2), typed here *)
+Definition css21_lengths : list str := [s "em"; s "ex"; s "px"; s "cm"; s "mm"; s "in"; s "pt"; s "pc"].
+Theorem zero_units_are_lengths : forall u, In u zero_units -> In u css21_lengths.
+Proof.
+  assert (H : forallb (fun u => mem_s u css21_lengths) zero_units = true) by (vm_compute; reflexivity).
+  rewrite forallb_forall in H. intros u Hu. specialize (H u Hu).
+  induction css21_lengths as [|x l IH]; [discriminate|]. cbn [mem_s] in H.
+  apply orb_true_iff in H. destruct H as [H|H]; [left; symmetry; now apply eqs_spec|right; auto].
+Qed.
+Print Assumptions zero_units_are_lengths.
+
+(* the hypotheses are satisfiable, the lexemes exist, and the executable binary64 gives the expected texts *)
+Example binary64_like_inhabited : binary64_like (fun q => q).
+Proof. exact binary64_like_id. Qed.
+Example wf_example : wf (mkLex SMinus (s "0") (Some (s "50")) (s "px")) /\ wf (mkLex SPlus [] (Some (s "25")) (s "%")).
+Proof. unfold wf, all_digits; cbn. repeat split; try discriminate; repeat constructor. Qed.
+Example roundtrip_example :
+  option_map (fun p => render (fst p)) (roundtrip dbl_exec true (mkLex SMinus (s "0") (Some (s "50")) (s "PX"))) = Some (s "-.5PX") /\
+  option_map (fun p => render (fst p)) (roundtrip dbl_exec false (mkLex SPlus (s "007") (Some (s "1234565")) (s "em"))) = Some (s "+7.123456em") /\
+  option_map (fun p => render (fst p)) (roundtrip dbl_exec true (mkLex SNone (s "0") (Some (s "000")) (s "px"))) = Some (s "0").
+Proof. vm_compute. repeat split. Qed.
+(* the defect repaired by fix e0376ad: the old surgery cut by the written sign; the repaired one keeps '1.0px' *)
+Example omit_leading_zero_old_code_refuted :
+  ser_num_old true SNone (to_value dbl_exec (mkLex SNone (s "0") (Some (s "9999999")) (s "px"))) (s "px") = Text (s ".0px") /\
+  ser_num true SNone (to_value dbl_exec (mkLex SNone (s "0") (Some (s "9999999")) (s "px"))) (s "px") = Text (s "1.0px").
+Proof. vm_compute. split; reflexivity. Qed.
+
+(* ---------------------------------------------------------------- colours *)
+(* what reHexcolor accepts, for every string *)
+Theorem hex_shapes : forall v, hexmatch v = hex_shape v.
+Proof. exact hexmatch_shape. Qed.
+Print Assumptions hex_shapes.
+
+Theorem hex3_rgb : forall a b c,
+  is_hex a = true -> is_hex b = true -> is_hex c = true ->
+  color_of_hash [35%N; a; b; c] = Rgba (css3_hex3 a b c) 1.
+Proof. exact hex3_rgb_thm. Qed.
+Print Assumptions hex3_rgb.
+
+Theorem hex6_rgb : forall a1 a2 b1 b2 c1 c2,
+  is_hex a1 = true -> is_hex a2 = true -> is_hex b1 = true -> is_hex b2 = true -> is_hex c1 = true -> is_hex c2 = true ->
+  color_of_hash [35%N; a1; a2; b1; b2; c1; c2] = Rgba (css3_hex6 a1 a2 b1 b2 c1 c2) 1.
+Proof. exact hex6_rgb_thm. Qed.
+Print Assumptions hex6_rgb.
+
+(* a string that is not of one of the two shapes is not a colour; in particular none ends in a newline *)
+Theorem hex_nothing_else : forall v,
+  hexmatch v = true ->
+  (exists a b c, v = [35%N; a; b; c] /\ is_hex a = true /\ is_hex b = true /\ is_hex c = true) \/
+  (exists a1 a2 b1 b2 c1 c2, v = [35%N; a1; a2; b1; b2; c1; c2] /\ is_hex a1 = true /\ is_hex a2 = true /\
+     is_hex b1 = true /\ is_hex b2 = true /\ is_hex c1 = true /\ is_hex c2 = true).
+Proof. exact hex_only_shapes. Qed.
+Print Assumptions hex_nothing_else.
+
+(* minimizeColorHash: the shortened text is again a hex colour with the same components, for every string *)
+Theorem hash_min_same_rgb : forall mz v,
+  hexmatch v = true -> hexmatch (hash_min mz v) = true /\ hex_rgb (hash_min mz v) = hex_rgb v.
+Proof. exact hash_min_same_rgb_thm. Qed.
+Print Assumptions hash_min_same_rgb.
+
+(* every name, known or unknown: COLORS of /repo and the CSS3 table typed into Colors.v give the same answer *)
+Theorem named_rgb : forall name, rgba_eqb (named_color name) (assoc_s name css3_named) = true.
+Proof. exact named_rgb_thm. Qed.
+Print Assumptions named_rgb.
+
+(* rgb()/rgba() with integer arguments report them unchanged: the CSS3 value whenever 0 <= n <= 255.
+   Full statement (CSS3 Color 4.2.1: components are clipped to 0..255, alpha to 0..1) is violated by the code:
+     forall r g b, fn_color dbl "rgb(" [r; g; b] = FRgba (clip 0 255 r) (clip 0 255 g) (clip 0 255 b) 1 true     *)
+Theorem rgb_fn_spec_partial : forall dbl r g b,
+  (0 <= r <= 255)%Z -> (0 <= g <= 255)%Z -> (0 <= b <= 255)%Z ->
+  fn_color dbl (s "rgb(") [CNum (PyInt r); CNum (PyInt g); CNum (PyInt b)]
+  = FRgba (clip 0 (255 # 1) (inject_Z r)) (clip 0 (255 # 1) (inject_Z g)) (clip 0 (255 # 1) (inject_Z b)) 1 true.
+Proof. exact rgb_fn_in_range. Qed.
+Print Assumptions rgb_fn_spec_partial.
+Theorem rgb_fn_spec_refuted :
+  exists r g b, fn_color dbl_exec (s "rgb(") [CNum (PyInt r); CNum (PyInt g); CNum (PyInt b)]
+                = FRgba (300 # 1) (- (5 # 1)) 0 1 true /\ ~ (clip 0 (255 # 1) (inject_Z r) == 300 # 1).
+Proof. exact rgb_fn_clip_refuted. Qed.
+Print Assumptions rgb_fn_spec_refuted.
+
+(* colorsys' algorithm over exact rationals is the CSS3 hsl algorithm (hue already normalised to [0,1)) *)
+Theorem hsl_algorithm_is_css3 : forall h sat l,
+  0 <= h -> h < 1 -> let '(r, g, b) := hls_to_rgb h l sat in let '(r', g', b') := css3_hsl h sat l in
+  r == r' /\ g == g' /\ b == b'.
+Proof. exact hls_is_css3. Qed.
+Print Assumptions hsl_algorithm_is_css3.
+
+Example hex_examples :
+  color_of_hash (s "#fb0") = Rgba (255, 187, 0)%Z 1 /\ color_of_hash (s "#0A0ad2") = Rgba (10, 10, 210)%Z 1 /\
+  hash_min true (s "#AAbbcc") = s "#Abc" /\ hash_min true (s "#aAbbcc") = s "#aAbbcc" /\
+  color_of_hash [35%N; 97%N; 98%N; 99%N; 10%N] = NoColor /\ named_color (s "rebeccapurple") = None.
+Proof. vm_compute. repeat split. Qed.
+Example function_examples :
+  fn_color dbl_exec (s "rgb(") [CPct (PyInt 50); CPct (PyInt 100); CPct (PyInt 0)] = FRgba (127 # 1) (255 # 1) 0 1 true /\
+  (match fn_color dbl_exec (s "hsl(") [CNum (PyInt 120); CPct (PyInt 100); CPct (PyInt 50)] with
+   | FRgba r g b a false => Qred r = 0 /\ Qred g = 255 # 1 /\ Qred b = 0 /\ a = 1
+   | _ => False end) /\
+  fn_color dbl_exec (s "hsl(") [CNum (PyInt 120); CNum (PyInt 100); CPct (PyInt 50)] = FInvalid.
+Proof. vm_compute. repeat split. Qed.
